@@ -193,6 +193,9 @@ func c04Conforms(r *ev.Run, cfg C04Pkg, t reflect.Type, where string, text []byt
 		// decided; numeric keywords (the generated validator works on the float, the reference on the text) are not
 		numericLoose = true
 	}
+	if hasInexactBigInteger(pv) {
+		numericLoose = true // a float64 member printed as a long integer: same reservation
+	}
 	ok, why := schemaref.Validate(root, pv, res)
 	r.Count("corpus_conformance_checked", 1)
 	if ok {
